@@ -19,10 +19,10 @@ LEVEL = [1, 2, 3]
 WHENS = ["2024-01-02T03:04:05", "2024-01-02T03:04:05+00:00", "1999-12-31T23:59:59.123456+02:00"]
 DAYS = ["2024-02-29", "1970-01-01"]
 UUIDS = ["123e4567-e89b-12d3-a456-426614174000", "00000000-0000-0000-0000-000000000000"]
-BLOBS = ["", "AA==", "aGVsbG8="]
+BLOBS = ["", "AA==", "aGVsbG8=", "++++/v79/A=="]  # the last one uses both characters that differ between the base64 alphabets
 
 _WARM = [
-    (Person, {"firstName": "a", "mood": None, "user_name_2": "u", "home-address": {"street": "s"}, "status": "active", "level": 1, "attrs": {"k": 1}, "addresses": [{"street": "t"}]}),
+    (Person, {"firstName": "a", "mood": None, "user_name_2": "u", "home-address": {"street": "s"}, "status": "active", "level": 1, "attrs": {"k": 1}, "addresses": [{"street": "t"}], "grid": [[{"street": "g", "zip-code": "z"}]]}),
     (Stamps, {"created": WHENS[0], "born": DAYS[0], "avatar": BLOBS[1], "score": 1.5, "active": True}),
     (Employee, {"id": 1, "boss": "b", "office": {"street": "s"}}),
     (Account, {"user_id_2": "r", "userId": "a", "user_id": "b", "User-Id": 3}),
@@ -166,6 +166,29 @@ def tw_person_nested_a(fn: str, has_home: bool, street: str, has_zip: bool, n_ad
     return False
 
 
+def ob_person_grid(fn: str, rows: int, street: str, has_zip: bool) -> bool:
+    """
+    pre: len(fn) <= 1 and len(street) <= 1 and 0 <= rows <= 2
+    post: _
+    """
+    doc = {"firstName": fn, "mood": "ok"}
+    cell = {"street": street}
+    if has_zip:
+        cell["zip-code"] = fn
+    if rows:
+        doc["grid"] = [[dict(cell)] if r == 0 else [dict(cell), dict(cell)] for r in range(rows)]
+    return _rt(doc, Person)
+
+
+def tw_person_grid(fn: str, rows: int, street: str, has_zip: bool) -> bool:
+    """
+    pre: len(fn) <= 1 and len(street) <= 1 and 0 <= rows <= 2
+    post: _
+    """
+    U(S({"firstName": fn, "mood": "ok", "grid": [[{"street": street}]]}, Person))
+    return False
+
+
 def ob_person_nested_b(fn: str, n_tags: int, has_attrs: bool, av: int) -> bool:
     """
     pre: len(fn) <= 1 and 0 <= n_tags <= 2
@@ -212,7 +235,7 @@ def tw_person_enums(fn: str, has_status: bool, si: int, has_level: bool, li: int
 
 def ob_stamps_formats(w: int, has_born: bool, d: int, has_uid: bool, u: int, has_avatar: bool, b: int, has_active: bool, active: bool) -> bool:
     """
-    pre: 0 <= w < 3 and 0 <= d < 2 and 0 <= u < 2 and 0 <= b < 3
+    pre: 0 <= w < 3 and 0 <= d < 2 and 0 <= u < 2 and 0 <= b < 4
     post: _
     """
     import datetime as dt
@@ -236,7 +259,7 @@ def ob_stamps_formats(w: int, has_born: bool, d: int, has_uid: bool, u: int, has
 
 def tw_stamps_formats(w: int, has_born: bool, d: int, has_uid: bool, u: int, has_avatar: bool, b: int, has_active: bool, active: bool) -> bool:
     """
-    pre: 0 <= w < 3 and 0 <= d < 2 and 0 <= u < 2 and 0 <= b < 3
+    pre: 0 <= w < 3 and 0 <= d < 2 and 0 <= u < 2 and 0 <= b < 4
     post: _
     """
     U(S({"created": WHENS[w]}, Stamps))
